@@ -409,7 +409,7 @@ def fixture_notebooks():
 # ------------------------------------------------------------------ targeted three-way scenarios
 SCENARIOS = ['concurrent-insert', 'concurrent-insert', 'delete-vs-edit', 'same-line', 'different-lines', 'both-outputs', 'both-metadata',
              'insert-next-to-edit', 'delete-vs-transient', 'same-change', 'both-nbmeta', 'both-attachments', 'minor', 'replace-vs-transient', 'remove-output-vs-transient', 'dup-around-shared',
-             'replace-vs-insert', 'two-conflict-regions', 'output-mixed-keys', 'minor-down', 'remove-key-vs-transient', 'stale-conflict-record', 'meta-nested-mixed', 'same-inline-edit-plus-insert', 'exotic-text-both', 'similar-insert-attachments']
+             'replace-vs-insert', 'two-conflict-regions', 'output-mixed-keys', 'minor-down', 'remove-key-vs-transient', 'stale-conflict-record', 'meta-nested-mixed', 'same-inline-edit-plus-insert', 'exotic-text-both', 'similar-insert-attachments', 'concurrent-insert-uneven']
 
 
 def similar_cell(rng, c, used):
@@ -471,14 +471,17 @@ def triple_scenario(rng, minor=None, first=None):
         n = min(len(l['cells']), len(r['cells']))
         common = [i for i in range(min(n, len(base['cells']))) if l['cells'][i].get('source') == r['cells'][i].get('source') == base['cells'][i].get('source')
                   and l['cells'][i]['cell_type'] == r['cells'][i]['cell_type'] == base['cells'][i]['cell_type']]
-        if sc == 'concurrent-insert':
+        if sc in ('concurrent-insert', 'concurrent-insert-uneven'):
             p = rng.randrange(n + 1)
             xs = [long_cell(rng, minor, used) for _ in range(rng.choice([0, 0, 1, 2, 3]))]
             ys = [long_cell(rng, minor, used) for _ in range(rng.choice([0, 0, 1, 2, 3]))]
+            if sc == 'concurrent-insert-uneven' and len(xs) == len(ys):
+                # runs of unrelated cells of different lengths in front of the similar pair
+                (xs if rng.random() < 0.5 else ys).append(long_cell(rng, minor, used))
             s = long_cell(rng, minor, used)
             tail_l = [long_cell(rng, minor, used) for _ in range(rng.choice([0, 0, 1, 3]))]
             tail_r = [long_cell(rng, minor, used) for _ in range(rng.choice([0, 0, 1]))]
-            if rng.random() < 0.7:
+            if rng.random() < 0.7 or sc == 'concurrent-insert-uneven':
                 l['cells'][p:p] = xs + [s] + tail_l
                 r['cells'][p:p] = ys + [similar_cell(rng, s, used)] + tail_r
             else:
@@ -588,13 +591,14 @@ def triple_scenario(rng, minor=None, first=None):
                 edit_cell(rng, l['cells'][i], rng.choice(['outputs', 'rerun']))
                 edit_cell(rng, r['cells'][i], rng.choice(['outputs', 'rerun', 'execution_count']))
         elif sc == 'both-metadata':
-            i = rng.choice(common)
+            code = [j for j in common if l['cells'][j]['cell_type'] == 'code']
+            i = rng.choice(code) if code and rng.random() < 0.8 else rng.choice(common)
             edit_cell(rng, l['cells'][i], 'metadata')
             edit_cell(rng, r['cells'][i], 'metadata')
             if rng.random() < 0.8 and l['cells'][i]['cell_type'] == 'code':
                 # transient metadata keys changed on both sides, present in base or not
                 vals = rng.sample([True, False, 'auto'], 3)
-                if rng.random() < 0.6:
+                if rng.random() < 0.75:
                     base['cells'][i]['metadata']['scrolled'] = vals[0]
                 l['cells'][i]['metadata']['scrolled'] = vals[1]
                 r['cells'][i]['metadata']['scrolled'] = vals[2]
@@ -786,7 +790,18 @@ def triple_scenario(rng, minor=None, first=None):
 _rot = [0]
 
 
+SWEEP_REPS = 3
+
+
 def any_triple(rng, minor=None, minor_change=False):
+    """the first len(scenarios) * SWEEP_REPS calls on one generator sweep every conflict scenario (each repetition shifted by
+    one, so that a caller cycling through strategies / helpers with its own counter meets every scenario with every
+    residue); after that 70 % scenarios in rotation, 30 % independent random edit scripts"""
+    n = getattr(rng, '_verif_calls', 0)
+    rng._verif_calls = n + 1
+    scen = sorted(set(SCENARIOS))
+    if n < len(scen) * SWEEP_REPS:
+        return triple_scenario(rng, minor, first=scen[(n + n // len(scen)) % len(scen)])
     if rng.random() < 0.7:
         _rot[0] += 1           # rotate through the scenarios so that every kind occurs in a short run
         return triple_scenario(rng, minor, first=SCENARIOS[_rot[0] % len(SCENARIOS)])
